@@ -7,6 +7,6 @@ open CogentModel.GapMerge
 
 /-- the witness: ref CTAA with (C-TAA-,ACTCTC), (CTAA-,-TCCA), (CTAA,--CA) -/
 theorem merge_keeps_pairwise_counter :
-    keepsAll 4 [([(1,1),(4,1)], [], 6), ([(4,1)], [(0,1)], 4), ([], [(0,2)], 2)] = false := by decide
+    keepsAll false 4 [([(1,1),(4,1)], [], 6), ([(4,1)], [(0,1)], 4), ([], [(0,2)], 2)] = false := by decide
 
 end CogentModel.C18
